@@ -163,7 +163,7 @@ fn mark_finished(tid: usize) {
 }
 
 const GRACE: Duration = Duration::from_millis(15);
-const HANG: Duration = Duration::from_secs(10);
+const HANG: Duration = Duration::from_secs(90);
 
 /// Drive the paused threads according to `schedule`; returns (trace, widths) or Err on a hang.
 fn direct(n: usize, schedule: &[u8]) -> Result<(Vec<String>, Vec<usize>), String> {
@@ -440,6 +440,7 @@ pub fn execute(case: &ThrCase) -> Result<RunOut, String> {
         eyeball::verif::set_pause_hook(Some(hook));
     }
     let barrier = Barrier::new(n);
+    let panics: Mutex<Vec<String>> = Mutex::new(vec![]);
     let mut out: Result<(Vec<String>, Vec<usize>), String> = Ok((vec![], vec![]));
     std::thread::scope(|sc| {
         let mut hs = vec![];
@@ -447,14 +448,20 @@ pub fn execute(case: &ThrCase) -> Result<RunOut, String> {
             let prog = &case.threads[tid];
             let clock = &clock;
             let barrier = &barrier;
+            let panics = &panics;
             hs.push(sc.spawn(move || {
                 if directed {
                     TID.with(|t| t.set(Some(tid)));
                 } else {
                     barrier.wait();
                 }
-                for (i, op) in prog.ops.iter().enumerate() {
-                    ctx.exec(i, *op, clock, !directed);
+                let r = crate::common::catch(|| {
+                    for (i, op) in prog.ops.iter().enumerate() {
+                        ctx.exec(i, *op, clock, !directed);
+                    }
+                });
+                if let Err(c) = r {
+                    panics.lock().unwrap().push(format!("thread {tid} panicked at {}: {}", c.loc, c.msg));
                 }
                 if directed {
                     TID.with(|t| t.set(None));
@@ -485,6 +492,10 @@ pub fn execute(case: &ThrCase) -> Result<RunOut, String> {
         eyeball::verif::set_pause_hook(None);
     }
     let (trace, widths) = out?;
+    let panics = panics.into_inner().unwrap();
+    if !panics.is_empty() {
+        return Err(format!("PANIC {} (schedule {:?})", panics.join("; "), trace));
+    }
     Ok(finish(ctxs, main_owner, &clock, init, trace, widths))
 }
 
@@ -574,21 +585,29 @@ pub fn run_reps(case: &ThrCase, prop: Prop, reps: u32) -> R<CaseReport> {
     let end = Barrier::new(n + 1);
     let stop = std::sync::atomic::AtomicBool::new(false);
     let clock = AtomicU64::new(1);
+    let panics: Mutex<Vec<String>> = Mutex::new(vec![]);
     let mut result: R<CaseReport> = Ok(CaseReport::default());
     std::thread::scope(|sc| {
         for tid in 0..n {
-            let (slots, start, end, stop, clock) = (&slots, &start, &end, &stop, &clock);
+            let (slots, start, end, stop, clock, panics) = (&slots, &start, &end, &stop, &clock, &panics);
             let prog = &case.threads[tid];
             sc.spawn(move || loop {
                 start.wait();
                 if stop.load(Ordering::SeqCst) {
                     break;
                 }
-                let mut ctx = slots[tid].lock().unwrap().take().expect("ctx");
-                for (i, op) in prog.ops.iter().enumerate() {
-                    ctx.exec(i, *op, clock, true);
+                let ctx = slots[tid].lock().unwrap().take().expect("ctx");
+                let r = crate::common::catch(move || {
+                    let mut ctx = ctx;
+                    for (i, op) in prog.ops.iter().enumerate() {
+                        ctx.exec(i, *op, clock, true);
+                    }
+                    ctx
+                });
+                match r {
+                    Ok(ctx) => *slots[tid].lock().unwrap() = Some(ctx),
+                    Err(c) => panics.lock().unwrap().push(format!("thread {tid} panicked at {}: {}", c.loc, c.msg)),
                 }
-                *slots[tid].lock().unwrap() = Some(ctx);
                 end.wait();
             });
         }
@@ -600,6 +619,13 @@ pub fn run_reps(case: &ThrCase, prop: Prop, reps: u32) -> R<CaseReport> {
             }
             start.wait();
             end.wait();
+            let ps = panics.lock().unwrap().clone();
+            if !ps.is_empty() {
+                let in_harness = ps.iter().any(|p| p.contains("at src/"));
+                let msg = format!("worker thread panicked: {}", ps.join("; "));
+                result = if in_harness { Err(Stop::Internal(msg)) } else { Err(Stop::Violation(format!("library code panicked while threads used it in-contract: {msg}"))) };
+                break;
+            }
             let ctxs: Vec<ThreadCtx> = (0..n).map(|i| slots[i].lock().unwrap().take().expect("ctx back")).collect();
             let out = finish(ctxs, main_owner, &clock, INIT, vec![], vec![]);
             match judge(case, &out, prop) {
@@ -852,6 +878,7 @@ pub fn run(case: &ThrCase, prop: Prop) -> R<CaseReport> {
             Err(Stop::Violation(m)) if case.schedule.is_none() => Err(Stop::Violation(save_history(case, out, prop, m))),
             r => r,
         },
+        Err(e) if e.starts_with("PANIC ") && !e.contains("at src/") => Err(Stop::Violation(format!("library code panicked while threads used it in-contract: {e}"))),
         Err(e) => Err(Stop::Internal(e)),
     }
 }
@@ -891,7 +918,11 @@ pub fn explore(base: &ThrCase, prop: Prop, max_schedules: u64) -> Explored {
         let out = match execute(&case) {
             Ok(o) => o,
             Err(e) => {
-                ex.internal.push(e);
+                if e.starts_with("PANIC ") && !e.contains("at src/") {
+                    ex.failure = Some((case, format!("library code panicked while threads used it in-contract: {e}")));
+                } else {
+                    ex.internal.push(e);
+                }
                 return ex;
             }
         };
